@@ -66,6 +66,8 @@ def corr_trace(tid, rng, seed, d, n, draws, frame, minmax, base, identity, const
     mean, mini, maxi = (res if minmax else (res, None, None))
     ev = []
     c = 0
+    # a model can learn the identity on variable i only from a training half where i takes two values
+    learnable = [bool(all(numpy.ptp(splits[k][0][:, i]) > 0 for k in range(draws))) for i in range(d)]
     for k in range(draws):
         test = splits[k][1]
         for i in range(d):
@@ -81,14 +83,14 @@ def corr_trace(tid, rng, seed, d, n, draws, frame, minmax, base, identity, const
     numpy.random.seed(seed)
     res2 = C.non_linear_correlations(other, base, draws=draws, minmax=minmax)
     mean2 = res2[0] if minmax else res2
-    same = bool(numpy.allclose(numpy.asarray(mean2, dtype=float), M, rtol=0, atol=1e-12, equal_nan=True))
+    same = bool(numpy.allclose(numpy.asarray(mean2, dtype=float), M, rtol=0, atol=1e-6, equal_nan=True))
     kept = True
     if frame:
         kept = bool(list(mean.columns) == labels and list(mean.index) == labels)
     untouched = bool(arg.equals(snap)) if frame else bool(numpy.array_equal(arg, snap))
     ev.append(dict(a="result", rows=int(M.shape[0]), cols=int(M.shape[1]) if M.ndim == 2 else -1, mean=enc(M),
                    mini=enc(mini) if minmax else enc(M), maxi=enc(maxi) if minmax else enc(M),
-                   labels_kept=kept, input_untouched=untouched, frame_eq_array=same))
+                   labels_kept=kept, input_untouched=untouched, frame_eq_array=same, learnable=learnable))
     return dict(id=tid, kind="corr", d=d, draws=draws, minmax=minmax, identity_model=identity, ev=ev, site=CSITE,
                 sig="frame=%s minmax=%s const=%s collinear=%s" % (frame, minmax, const_col is not None, collinear),
                 tr="None", inv="None", outcome=[], r2_equal=True)
